@@ -208,6 +208,9 @@ fn rand_num() -> BoxedStrategy<DocVal> {
         2 => (any::<i64>(), -3i64..=3).prop_map(|(b, d)| DocVal::Int(b.wrapping_add(d))),
         2 => prop::sample::select(vec![i64::MIN, -1, 0, 1, i64::MAX]).prop_flat_map(|b| (-2i64..=2).prop_map(move |d| DocVal::Int(b.saturating_add(d)))),
         2 => prop::sample::select(vec![0u64, i64::MAX as u64, u64::MAX]).prop_flat_map(|b| (-2i64..=2).prop_map(move |d| DocVal::UInt(b.saturating_add_signed(d)))),
+        2 => (0u32..64, -1i64..=1).prop_map(|(k, d)| DocVal::Int((1i64.wrapping_shl(k)).wrapping_add(d))),
+        1 => (0u32..64, -1i64..=1).prop_map(|(k, d)| DocVal::UInt((1u64 << k).wrapping_add_signed(d))),
+        1 => (0i32..1024, -1i64..=1).prop_map(|(k, d)| DocVal::Float(2f64.powi(k - 512) + d as f64)),
         1 => any::<i64>().prop_map(|i| DocVal::Float(i as f64)),
         1 => any::<i64>().prop_map(|i| DocVal::Str(i.to_string())),
         1 => any::<f64>().prop_map(|f| DocVal::Str(f.to_string())),
@@ -255,7 +258,11 @@ pub fn run(tier: &str, seed: u64) -> i32 {
         (
             0usize..8,
             prop::sample::select(vec!["=", ">", ">=", "<", "<="]),
-            prop_oneof![any::<i64>(), prop::sample::select(vec![i64::MIN, -1, 0, 1, i64::MAX])],
+            prop_oneof![
+                any::<i64>(),
+                prop::sample::select(vec![i64::MIN, -1, 0, 1, i64::MAX]),
+                (0u32..63, -1i64..=1).prop_map(|(k, d)| (1i64 << k).wrapping_add(d)),
+            ],
             any::<f64>().prop_filter("finite", |f| f.is_finite()),
             prop::collection::vec(rand_num(), 6),
             prop::collection::vec(rand_num(), 6),
